@@ -31,3 +31,19 @@ pub fn panic_message(e: &Box<dyn std::any::Any + Send>) -> String {
         "<non-string panic>".to_string()
     }
 }
+
+/// `decode_message_batch` returned a bare `Vec` before the defect repair and a `Result` after it;
+/// the harness must build (and judge) both shapes.
+pub trait BatchResult {
+    fn into_res(self) -> Result<Vec<bytes::Bytes>, String>;
+}
+impl BatchResult for Vec<bytes::Bytes> {
+    fn into_res(self) -> Result<Vec<bytes::Bytes>, String> {
+        Ok(self)
+    }
+}
+impl<E: std::fmt::Display> BatchResult for Result<Vec<bytes::Bytes>, E> {
+    fn into_res(self) -> Result<Vec<bytes::Bytes>, String> {
+        self.map_err(|e| e.to_string())
+    }
+}
